@@ -16,6 +16,7 @@
   the next block, where `CompleteUnbondings` burns them (`module_holds_bond`, `stranded_reward_burn`).
 -/
 import AllianceProofs
+import AllianceModel.Query
 namespace Alliance
 namespace C11
 open Dec
@@ -102,6 +103,26 @@ theorem module_bond_balance_zero_after_unbonding_phase (w w' : World) (h : compl
       subst h2
       simp only [ne_eq, Decidable.not_not] at heq
       exact heq
+
+/-- the bank `SupplyOf` query reports the staking-denom supply net of the alliance-bonded amount, every other denom raw
+    (model of custom/bank/keeper, tied to the real query by the `Q supplyof` / `Q totalsupply` trace lines) -/
+theorem supply_query_is_net_of_alliance_stake (w : World) (d : Denom) :
+    qSupplyOf w d = if d = w.staking.bondDenom then supplyOf w d - allianceBondedAmount w else supplyOf w d := rfl
+
+/-- a rebalance that succeeds leaves "reported supply + alliance-bonded amount − pool balances" where it was: the
+    reported figure moves only with the alliance-bonded amount and the pools -/
+theorem reported_supply_after_rebalance (assets : List Asset) (w w' : World)
+    (h : rebalanceBondTokenWeights assets w = (.ok (), w')) :
+    qSupplyOf w' w'.staking.bondDenom + allianceBondedAmount w'
+      - bankBalance w' accBonded w'.staking.bondDenom - bankBalance w' accNotBonded w'.staking.bondDenom
+    = qSupplyOf w w.staking.bondDenom + allianceBondedAmount w
+      - bankBalance w accBonded w.staking.bondDenom - bankBalance w accNotBonded w.staking.bondDenom := by
+  obtain ⟨g, hb⟩ := rebalance_keeps_native_supply assets w w' h
+  unfold qSupplyOf
+  simp only [if_true]
+  rw [hb]
+  unfold outsideB at g
+  omega
 
 /-- non-vacuity of the pairing: mint 7 and delegate 7 on a concrete state -/
 example : outsideB 4 { (default : World) with staking := { bondDenom := 4, unbondingTime := 1, vals := [] } } = 0 := by decide
